@@ -10,6 +10,7 @@ import Dtaiverif.Model.Matrix
 import Dtaiverif.Model.Dba
 import Dtaiverif.Model.SubseqIter
 import Dtaiverif.Model.SubseqSearch
+import Dtaiverif.Model.Hier
 
 open Lean
 
@@ -256,11 +257,28 @@ def opKnn (j : Json) : Except String Json := do
   let out := ks.toList.foldl step ({ stored := none }, [])
   return Json.mkObj [("answers", Json.arr out.2.toArray)]
 
+/-- op "hier": hook-free `Hierarchical.fit` on an explicit matrix (row-major `n*n` entries, `null` = inf),
+the linkage `HierarchicalTree` records for it, and the condensed vector of `LinkageTree` -/
+def opHier (j : Json) : Except String Json := do
+  let n ← getNat j "n"
+  let flat ← (j.getObjVal? "flat") >>= (·.getArr?)
+  let d0 : Nat → Nat → Cost := fun r c => costOfJ (flat.getD (r * n + c) Json.null)
+  let M : Cost := match getOptNat j "maxDistI" with | some m => .fin m | none => .inf
+  let fin := hierRun M (n - 1) (hierInit n d0)
+  let t := treeOf n fin.merges
+  return Json.mkObj [
+    ("merges", Json.arr (fin.merges.reverse.map fun m => Json.arr #[Json.num (m.1 : Nat), Json.num (m.2.1 : Nat), costJ m.2.2]).toArray),
+    ("rep", Json.arr ((List.range n).map fun x => Json.num (fin.rep x : Nat)).toArray),
+    ("deleted", Json.arr (fin.deleted.reverse.map fun (x : Nat) => Json.num (x : Nat)).toArray),
+    ("linkage", cellsJ t.linkage.reverse),
+    ("condensed", Json.arr ((condensedOf n d0).map costJ).toArray)]
+
 def dispatch (j : Json) : Except String Json := do
   let op ← (j.getObjVal? "op") >>= (·.getStr?)
   let res ← match op with
     | "dtw" => opDtw j
     | "knn" => opKnn j
+    | "hier" => opHier j
     | "subseq" => opSubseq j
     | "dba" => opDba j
     | "bounds" => opBounds j
